@@ -87,11 +87,23 @@ def has_surrogate(s):
     return any(0xD800 <= ord(ch) < 0xE000 for ch in s)
 
 
-def host_name_in_quantifier(name):
-    """the property's quantifier: "all valid host names up to 253 characters" (C18's grammar;
-    one trailing dot allowed).  Only used to label cases; whether a name reaches the classes
-    is decided by running the real NetAddress."""
-    return 1 <= len(name) <= 254 and name.isascii() and '\0' not in name
+LABEL_CHARS = set('abcdefghijklmnopqrstuvwxyzABCDEFGHIJKLMNOPQRSTUVWXYZ0123456789-_')
+
+
+def valid_host_name(name):
+    """the property's quantifier "all valid host names up to 253 characters", written from
+    C18's text: ignoring one trailing dot, 1-253 characters of dot-separated labels of 1-63
+    letters, digits, hyphens or underscores that neither begin nor end with a hyphen and whose
+    last label is not all digits"""
+    if name.endswith('.'):
+        name = name[:-1]
+    if not 1 <= len(name) <= 253:
+        return False
+    labels = name.split('.')
+    for lab in labels:
+        if not 1 <= len(lab) <= 63 or not set(lab) <= LABEL_CHARS or lab[0] == '-' or lab[-1] == '-':
+            return False
+    return not all(ch in '0123456789' for ch in labels[-1])
 
 
 def scope(case, addr_ok=True):
@@ -102,7 +114,7 @@ def scope(case, addr_ok=True):
     kind = host[0]
     if not 1 <= port <= 65535:
         return None, 'port outside 1..65535'
-    if not addr_ok:
+    if not addr_ok and not (kind == 'n' and valid_host_name(host[1])):
         return None, 'NetAddress refuses the destination'
     if auth is not None:
         used = auth[0] if proto != '5' else auth[0] + auth[1]
@@ -179,6 +191,8 @@ def oracle(mods, case, ctor_exc, raws, light=False, addr_ok=True):
     SOCKSError = mods.socks.SOCKSError
     first = raws[0] if raws else []
     if sc_ == 'inexpress':
+        if not addr_ok:
+            return None     # refused even earlier (NetAddress): nothing was sent
         sent_first = msgs_of(first)
         if ctor_exc is not None:
             if isinstance(ctor_exc, SOCKSError):
@@ -594,7 +608,7 @@ def tuple_auth_check(mods, ctx, res):
                 texts.append(text)
     model = ctx.model([sc.enc_case(c) for c in cases])
     for c, t, m in zip(cases, texts, model or texts):
-        if m != t:
+        if dialogue_observable(m) != dialogue_observable(t):
             res.disagreement(dict(sc.case_json(c), tuple_auth=True), t[:400], m[:400])
     res['scopes']['tuple_auth_objects'] = len(cases)
     res['evaluations'] += len(cases)
@@ -799,8 +813,9 @@ def _impl_batch(args):
     for case in cases:
         text, ctor_exc, raws, addr_ok = impl_case(_mods, case, stub, light)
         bad = oracle(_mods, case, ctor_exc, raws, light, addr_ok) if not stub else None
-        res.append((text, bad, (scope(case, addr_ok)[0] if addr_ok else 'netaddress_refused')
-                    if not stub else 'stub'))
+        sc_ = scope(case, addr_ok)[0]
+        res.append((text, bad, ('stub' if stub else 'netaddress_refused' if (sc_ is None and not addr_ok)
+                                else sc_)))
     return res
 
 
@@ -825,8 +840,10 @@ def evaluate(ctx, cases, res, scope_name, stub=False, light=False):
         if bad:
             res.violation(bad[0], sc.case_json(case), bad[1], impl=text[:300])
         # a destination the real NetAddress refuses never reaches the modelled classes
-        if model is not None and sc_ != 'netaddress_refused' and model[i] != text:
-            res.disagreement(sc.case_json(case), text[:400], model[i][:400], stub=stub)
+        if model is not None and sc_ != 'netaddress_refused':
+            if dialogue_observable(model[i]) != dialogue_observable(text):
+                res.disagreement(sc.case_json(case), text[:400], model[i][:400], stub=stub)
+            res.count('need_counts_as_model' if model[i] == text else 'need_counts_differ')
         res.count(f'scope_{sc_}')
         res.count(f'proto_{case[0]}')
         res.count(f'host_{case[1][0]}')
@@ -843,6 +860,12 @@ def evaluate(ctx, cases, res, scope_name, stub=False, light=False):
     res['evaluations'] += len(cases)
     res['scopes'][scope_name] = res['scopes'].get(scope_name, 0) + len(cases)
     return outs
+
+
+def dialogue_observable(text):
+    """messages / None / exceptions of each dialogue; NeedData counts are C17's business (and
+    even there an implementation choice)"""
+    return [sc.observable_tokens(d.split()) for d in text.split(' | ')]
 
 
 def px_json(case, attempts):
